@@ -22,6 +22,7 @@ CONSTANTS
   IsoMatVer <- MCIsoMatVer
   IsoAdsVer <- MCIsoAdsVer
   IsoClass <- MCIsoClass
+  Traits <- MCTraits
 INVARIANT DictionaryModel
 INVARIANT Integrity
 INVARIANT StepLaws
